@@ -71,8 +71,8 @@ func toYAMLNode(v any) (*yaml.Node, error) {
 		sort.Strings(keys)
 		n.Kind = yaml.MappingNode
 		for _, k := range keys {
-			key := new(yaml.Node)
-			if err := key.Encode(k); err != nil {
+			key, err := toYAMLNode(k)
+			if err != nil {
 				return nil, err
 			}
 			val, err := toYAMLNode(v[k])
@@ -90,6 +90,16 @@ func toYAMLNode(v any) (*yaml.Node, error) {
 			}
 			n.Content = append(n.Content, val)
 		}
+	case string:
+		// A string of multiple lines is written as a literal block, which
+		// lacks the indentation indicator it needs to be read back when
+		// the string starts with a tab, so quote such a string.
+		if strings.HasPrefix(v, "\t") && strings.Contains(v, "\n") {
+			n.SetString(v)
+			n.Style = yaml.DoubleQuotedStyle
+			return n, nil
+		}
+		return n, n.Encode(v)
 	case *big.Int:
 		return n, n.Encode(json.Number(v.String()))
 	default:
